@@ -1,6 +1,6 @@
 (* C20 — backtracking restores, and atomic commit preserves, exactly the right state.
    This file only pins statements; proofs live in Proofs/StateRefine.v. *)
-From FR Require Import Base State StateRefine.
+From FR Require Import Base State StateRefine Utf8 Ast Sem Vm Machine.
 
 (* Every operation the whole-state-copy reference machine can perform is performed by the
    copy-on-write state of vm.rs without a panic, with the same output, and lands in the state
@@ -54,3 +54,35 @@ Proof. vm_compute. reflexivity. Qed.
 
 Print Assumptions C20_refines_op.
 Print Assumptions C20_all_histories.
+
+(* Program level: a negative look-around's failure (the pop loop of Insn::FailNegativeLookAround over
+   the reference state) discards exactly the alternatives F created since the look-around was
+   entered - the frames above the NEAREST frame whose pc is the look-around's own branch - together
+   with that frame, reinstates that frame's slots and auxiliary stack, and leaves every older
+   alternative K untouched, including older ones with the same target pc.  (That the compiled code
+   only ever has frames with other pcs above the own branch is part of the C01 chain:
+   CompileCorrect.neg_wrap.) *)
+Theorem C20_fnla_pops_to_own_branch : forall (M target : nat) (F : list alt) (fuel : nat) (sl aux : list val) (a : alt) (K : list alt),
+  length F < fuel -> Forall (fun b : alt => a_pc b <> target) F -> a_pc a = target ->
+  fnla rstate iface1u fuel (mkr M sl aux (F ++ a :: K)) target = Some (mkr M (a_slots a) (a_aux a) K).
+Proof. exact fnla_pops. Qed.
+Theorem C20_fnla_step : forall (cx : ctx) (P : list insn) (M pc ix : nat) (sl aux : list val) (F : list alt) (a : alt) (K : list alt),
+  at_ P pc IFailNegativeLookAround -> Forall (fun b : alt => a_pc b <> S pc) F -> a_pc a = S pc ->
+  mstep cx P M (Run pc ix sl aux (F ++ a :: K)) = Fail K.
+Proof. exact step_fnla. Qed.
+Check C20_fnla_pops_to_own_branch : forall (M target : nat) (F : list alt) (fuel : nat) (sl aux : list val) (a : alt) (K : list alt),
+  length F < fuel -> Forall (fun b : alt => a_pc b <> target) F -> a_pc a = target ->
+  fnla rstate iface1u fuel (mkr M sl aux (F ++ a :: K)) target = Some (mkr M (a_slots a) (a_aux a) K).
+Check C20_fnla_step : forall (cx : ctx) (P : list insn) (M pc ix : nat) (sl aux : list val) (F : list alt) (a : alt) (K : list alt),
+  at_ P pc IFailNegativeLookAround -> Forall (fun b : alt => a_pc b <> S pc) F -> a_pc a = S pc ->
+  mstep cx P M (Run pc ix sl aux (F ++ a :: K)) = Fail K.
+Print Assumptions C20_fnla_pops_to_own_branch.
+Print Assumptions C20_fnla_step.
+
+(* non-vacuity, and the situation a "find my own branch from the bottom of the stack" slip gets wrong:
+   two pending alternatives share the target pc 7; the failure discards the frame above and the
+   NEAREST one, restores its slots, and keeps the older one *)
+Example C20_fnla_ex :
+  let fr pc sl := {| a_pc := pc; a_ix := 0; a_slots := sl; a_aux := [] |} in
+  fnla rstate iface1u 5 (mkr 10 [V 9] [] [fr 3 [V 8]; fr 7 [V 1]; fr 7 [V 2]]) 7 = Some (mkr 10 [V 1] [] [fr 7 [V 2]]).
+Proof. vm_compute. reflexivity. Qed.
